@@ -211,7 +211,29 @@ impl Gen {
             return vec![]
         }
         let (pp, _) = Self::prefix_positions(ms);
-        let mut cuts: Vec<usize> = match self.rng.below(6) {
+        let mut cuts: Vec<usize> = match self.rng.below(7) {
+            6 => {
+                // exactly one cut 1..4 bytes before the end of a frame (preferably one with a multi-byte
+                // prefix) that is otherwise whole, so that the frame is met with nothing buffered
+                let mut ends: Vec<(usize, usize)> = vec![]; // (frame end, prefix width)
+                let mut off = 0usize;
+                for m in ms {
+                    let p = varint(m.len() as u64).len();
+                    off += p + m.len();
+                    ends.push((off, p));
+                }
+                let multi: Vec<(usize, usize)> = ends.iter().copied().filter(|e| e.1 >= 2).collect();
+                let pool = if multi.is_empty() { &ends } else { &multi };
+                let mut v = vec![];
+                for _ in 0..self.rng.range(1, 2) {
+                    let (end, _) = *self.rng.pick(pool);
+                    let k = self.rng.range(1, 4) as usize;
+                    if end > k {
+                        v.push(end - k);
+                    }
+                }
+                v
+            }
             0 | 1 => pp.iter().copied().filter(|_| self.rng.chance(1, 2)).collect(),
             2 => {
                 if total <= 4096 {
